@@ -31,6 +31,11 @@ FLAG_OF = {"expand_macros": {"expand_macro"}, "fill_in_map": {"expand_let_map"},
 
 def run(ctx, rep):
     ix, T = ctx.ix, ctx.typer
+    from .common import check_fast_paths
+    _fp_mods = ["jaqalpaq.core.algorithm.fill_in_map", "jaqalpaq.core.algorithm.expand_macros", "jaqalpaq.core.algorithm.expand_subcircuits"]
+    check_fast_paths(ctx, rep, "C10.7", [f for f in ix.functions.values() if f.module in _fp_mods and (f.cls is None or T.is_visitor(f.cls))], {"jaqalpaq.core.algorithm.expand_subcircuits.expand_subcircuits": {"body", "macros"}})
+    from .common import check_falsy_zero
+    check_falsy_zero(ctx, rep, "C10.6", ['jaqalpaq.core.algorithm.fill_in_map', 'jaqalpaq.core.algorithm.expand_subcircuits', 'jaqalpaq.parser.parser'], floor_positions=5)
     rep.assume("visitor convention: the first parameter of visit_<K> has static type K")
 
     # ------------------------------------------------------------ C10.1
@@ -137,6 +142,9 @@ def run(ctx, rep):
         else:
             rep.ok("C10.2", cons, "same-kind child blocks are spliced under an isinstance + parallel guard", f"{bh.path}:{splice.lineno}")
 
+    # ------------------------------------------------------------ C10.5
+    check_subcircuit_nesting(ctx, rep)
+
     # ------------------------------------------------------------ C10.4 / C10.3
     rep.rule("C10.4", "field flow through MapFiller", floor=15)
     rep.rule("C10.3", "MapFiller visits every position that can hold a NamedQubit", floor=2)
@@ -175,3 +183,129 @@ def run(ctx, rep):
             rep.ok("C10.3", cons, f"passed to visit in {construct_of(hit[0])}")
         else:
             rep.violation("C10.3", cons, f"{kname}.{member} can hold qubit references but is never visited by MapFiller: aliases survive fill_in_map", ix.classes[filler].loc())
+
+
+MOD_SUB = "jaqalpaq.core.algorithm.expand_subcircuits"
+
+
+def _is_block_ctor(T, f, call):
+    for cs in T.callsites(f):
+        if cs.node is call and cs.kind == "constructor" and cs.classes and cs.classes[0] == BLOCK:
+            return True
+    return False
+
+
+def _plain_block(call):
+    """BlockStatement(...) that cannot be a subcircuit block: no subcircuit argument (or a constant false one)."""
+    for k in call.keywords:
+        if k.arg == "subcircuit":
+            return isinstance(k.value, ast.Constant) and not k.value.value
+        if k.arg is None:
+            return False
+    return len(call.args) < 3
+
+
+def _visits_children(node):
+    """The expression places self.visit(<child>) results as elements (comprehension / generator / starred generator)."""
+    for n in ast.walk(node):
+        if isinstance(n, (ast.ListComp, ast.GeneratorExp)):
+            e = n.elt
+            if isinstance(e, ast.Call) and isinstance(e.func, ast.Attribute) and e.func.attr == "visit":
+                return True
+    return False
+
+
+def _has_splice(fn):
+    for n in walk_no_nested(fn.node):
+        if isinstance(n, ast.Call) and isinstance(n.func, ast.Attribute) and n.func.attr == "extend" and n.args and isinstance(n.args[0], ast.Attribute) and n.args[0].attr == "statements":
+            return n
+        if isinstance(n, ast.Starred) and isinstance(n.value, ast.Attribute) and n.value.attr == "statements":
+            return n
+    return None
+
+
+def check_subcircuit_nesting(ctx, rep):
+    """C10.5: expand_subcircuits turns `subcircuit { .. }` (legal inside a sequential block) into a plain
+    sequential block (not legal directly inside a sequential block: the grammar has no `{ { .. } }`), so the
+    method that rebuilds the enclosing block has to splice it."""
+    ix, T = ctx.ix, ctx.typer
+    rep.rule("C10.5", "a subcircuit block replaced by a plain block is spliced into the enclosing sequential block (no `{ { .. } }`)", floor=1)
+    entry = ix.func(f"{MOD_SUB}.expand_subcircuits")
+    vis = None
+    for cs in T.callsites(entry):
+        if cs.kind == "constructor" and cs.classes and T.is_visitor(cs.classes[0]):
+            vis = cs.classes[0]
+    if vis is None:
+        raise AnalysisError("C10.5: cannot locate the visitor instantiated by expand_subcircuits()")
+    bh = ix.find_method(vis, "visit_BlockStatement")
+    if bh is None:
+        raise AnalysisError("C10.5: the subcircuit expander has no visit_BlockStatement")
+    own = [m for m in ix.functions.values() if m.cls == vis]
+    # conversion sites: BlockStatement(..) without subcircuit, control dependent on `.subcircuit` (one call level deep)
+    bfl = FuncFlow(ix, T, bh)
+    guarded_funcs, converts = set(), []
+
+    def reads_subcircuit(tests):
+        return any(isinstance(m, ast.Attribute) and m.attr == "subcircuit" for t in tests for m in ast.walk(t))
+
+    def true_branch_calls():
+        for st in iter_stmts(bh.body):
+            if isinstance(st, ast.If) and reads_subcircuit([st.test]):
+                neg = isinstance(st.test, ast.UnaryOp) and isinstance(st.test.op, ast.Not)
+                for b in (st.orelse if neg else st.body):
+                    for n in ast.walk(b):
+                        if isinstance(n, ast.Call):
+                            yield n
+            for n in ast.walk(st) if not isinstance(st, (ast.If, ast.For, ast.While, ast.Try, ast.With)) else ():
+                if isinstance(n, ast.IfExp) and reads_subcircuit([n.test]) and not isinstance(n.test, ast.UnaryOp):
+                    for m in ast.walk(n.body):
+                        if isinstance(m, ast.Call):
+                            yield m
+
+    for n in true_branch_calls():
+        if _is_block_ctor(T, bh, n) and _plain_block(n):
+            converts.append((bh, n))
+        for cs in T.callsites(bh):
+            if cs.node is n:
+                for t in cs.targets:
+                    if t.cls == vis:
+                        guarded_funcs.add(t.qualname)
+    for m in own:
+        if m.qualname in guarded_funcs:
+            for n in walk_no_nested(m.node):
+                if isinstance(n, ast.Call) and _is_block_ctor(T, m, n) and _plain_block(n):
+                    converts.append((m, n))
+    if not converts:
+        rep.exempt("C10.5", cls_construct(ix, vis, "subcircuit-to-plain"), "the pass never turns a subcircuit block into a plain block")
+        return
+    conv_ids = {id(n) for _, n in converts}
+    n_sites = 0
+    for m in own:
+        for n in walk_no_nested(m.node):
+            if not (isinstance(n, ast.Call) and _is_block_ctor(T, m, n)) or id(n) in conv_ids:
+                continue
+            # the statements argument: built from visited children?
+            stm = None
+            for k in n.keywords:
+                if k.arg == "statements":
+                    stm = k.value
+            if stm is None and len(n.args) >= 2:
+                stm = n.args[1]
+            if stm is None:
+                continue
+            srcs = [stm]
+            if isinstance(stm, ast.Name):
+                for st in iter_stmts(m.body):
+                    if isinstance(st, ast.Assign) and any(isinstance(t, ast.Name) and t.id == stm.id for t in st.targets):
+                        srcs.append(st.value)
+            if not any(_visits_children(x) for x in srcs):
+                continue
+            n_sites += 1
+            cons = construct_of(m, "nested-plain-block")
+            sp = _has_splice(m)
+            if sp is None:
+                rep.violation("C10.5", cons, f"{m.name} rebuilds a block from its visited children element by element; a `subcircuit {{..}}` child inside a sequential block or loop body comes back as a plain sequential block and stays nested: the generated text `{{ {{ .. }} }}` is rejected by the parser", f"{m.path}:{n.lineno}")
+            else:
+                rep.ok("C10.5", cons, "replacement blocks are spliced into the enclosing block", f"{m.path}:{sp.lineno}")
+    if n_sites == 0:
+        rep.undecided("C10.5", cls_construct(ix, vis, "rebuild-sites"), "no block-rebuilding site recognised in the subcircuit expander")
